@@ -230,6 +230,9 @@ func zeroExpr(kind string, ptr bool, name string) string {
 	return "nil"
 }
 
+// HasDecoy reports whether package p declares the decoy d.
+func HasDecoy(p *Pkg, d string) bool { return hasDecoy(p, d) }
+
 func hasDecoy(p *Pkg, d string) bool {
 	for _, x := range p.Decoys {
 		if x == d {
@@ -391,6 +394,8 @@ func (m *Module) renderTypes(p *Pkg) world.File {
 		case "errnil":
 			// a package-level err that is nil, as in `var verbose, err = parseFlags()`
 			b.WriteString("var err error\n\n")
+		case "falseconst":
+			b.WriteString("// a package may redeclare a predeclared identifier\nconst false = !(1 == 0)\n\n")
 		case "cleanup":
 			b.WriteString("var cleanup = func() { simrt.DecoyCleanup() }\n\n")
 		case "v":
